@@ -42,6 +42,17 @@ template <typename A> static void encode_decode(const std::string& op, const JVa
         else embedded_pairing_bls12_381_g2_marshal(buf.data(), (embedded_pairing_bls12_381_g2affine_t*) &a, compressed);
         out.set("bytes", JVal::bytes(buf.data(), len));
         out.set("guard", (long long) (buf[len] == 0xA5 && buf[len + 7] == 0xA5 ? 1 : 0));
+        if (a.is_zero()) {
+            // the identity as a computation yields it: P + (-P), converted into an affine object that held another point before
+            using PJ = typename std::conditional<g == 1, G1, G2>::type;
+            PJ p, n, z; p.from_affine(A::generator); n.negate(p); z.add(p, n);
+            A dirty; dirty.copy(A::generator);
+            dirty.from_projective(z);
+            std::vector<uint8_t> b2(len + 8, 0xA5);
+            if (g == 1) embedded_pairing_bls12_381_g1_marshal(b2.data(), (embedded_pairing_bls12_381_g1affine_t*) &dirty, compressed);
+            else embedded_pairing_bls12_381_g2_marshal(b2.data(), (embedded_pairing_bls12_381_g2affine_t*) &dirty, compressed);
+            out.set("computed", JVal::bytes(b2.data(), len));
+        }
     } else {
         std::vector<uint8_t> buf = in["bytes"].byte_vec();
         if (buf.size() != len) { out.set("skip", 1); return; }
@@ -101,11 +112,20 @@ static void run_case(const JVal& in) {
         BigInt<256> r; memset(&r, 0xA5, sizeof r);
         embedded_pairing_bls12_381_zp_random((embedded_pairing_core_bigint_256_t*) &r, scripted_random);
         out.set("r", J(r)); end_script(out);
+        // the same stream served again straight away: the sampler is a function of the stream (judged only if neither call outran the script)
+        long long first = g_served; begin_script(in);
+        BigInt<256> r2; memset(&r2, 0xA5, sizeof r2);
+        embedded_pairing_bls12_381_zp_random((embedded_pairing_core_bigint_256_t*) &r2, scripted_random);
+        if (first <= (long long) g_script.size() && g_served <= (long long) g_script.size()) out.set("again", (long long) (BigInt<256>::equal(r, r2) ? 1 : 0));
     } else if (op == "rand.zpstar") {
         begin_script(in);
         BigInt<256> r; memset(&r, 0xA5, sizeof r);
         embedded_pairing_wkdibe_random_zpstar((embedded_pairing_wkdibe_scalar_t*) &r, scripted_random);
         out.set("r", J(r)); end_script(out);
+        long long first = g_served; begin_script(in);
+        BigInt<256> r2; memset(&r2, 0xA5, sizeof r2);
+        embedded_pairing_wkdibe_random_zpstar((embedded_pairing_wkdibe_scalar_t*) &r2, scripted_random);
+        if (first <= (long long) g_script.size() && g_served <= (long long) g_script.size()) out.set("again", (long long) (BigInt<256>::equal(r, r2) ? 1 : 0));
     } else if (op == "capi.diff") {
         // the same scripted stream is served to the C function and to the C++ operation it wraps; both outputs are logged byte for byte
         std::string fn = in["fn"].s;
@@ -173,13 +193,15 @@ static void run_case(const JVal& in) {
     } else if (op == "rand.zpstar_px") {
         // the scheme's sampler that returns a scalar together with its base-|x| decomposition
         begin_script(in);
-        PowersOfX p; embedded_pairing::wkdibe::Scalar y; memset(&p, 0xA5, sizeof p); memset(&y, 0xA5, sizeof y);
+        int fill = in.has("fill") ? (int) in["fill"].i : 0xA5;      // what the caller's output objects hold on entry
+        PowersOfX p; embedded_pairing::wkdibe::Scalar y; memset(&p, fill, sizeof p); memset(&y, fill, sizeof y);
         embedded_pairing::wkdibe::random_zpstar(p, y, scripted_random);
         JVal d = JVal::arr(); for (int i = 0; i < 4; i++) d.push(J(p.c[i]));
         out.set("c", d); out.set("y", J(*reinterpret_cast<BigInt<256>*>(&y))); end_script(out);
     } else if (op == "rand.powx") {
         begin_script(in);
-        PowersOfX p; BigInt<256> y; memset(&p, 0xA5, sizeof p); memset(&y, 0xA5, sizeof y);
+        int fill = in.has("fill") ? (int) in["fill"].i : 0xA5;      // what the caller's output objects hold on entry
+        PowersOfX p; BigInt<256> y; memset(&p, fill, sizeof p); memset(&y, fill, sizeof y);
         p.random(y, scripted_random);
         JVal d = JVal::arr(); for (int i = 0; i < 4; i++) d.push(J(p.c[i]));
         out.set("c", d); out.set("y", J(y)); end_script(out);
